@@ -3,7 +3,7 @@ from __future__ import annotations
 
 from spacepackets.cfdp import ChecksumType
 
-from vf import hdst, rigs
+from vf import hdst, hsrc, rigs
 from vf.explore import Spec
 from vf.hdst import DstScenario
 from vf.rigs import ACK, UNACK
@@ -59,6 +59,68 @@ def h_dest(ctx, N, mode, imm):
         ctx.covered("step:" + o.step1.name)
 
 
+SRC_STATE = {ACK: ["SM", "TICK", "NAK", "ACKEOF", "FIN", "KA", "CANCEL"],
+             UNACK: ["SM", "TICK", "FIN", "CANCEL"]}
+SRC_LAST = ["PUT", "CANCEL_OTHER", "WRONGSEQ", "WRONGSRC", "WRONGDST", "WRONGDIR", "FOREIGN_MD",
+            "FOREIGN_EOF", "FOREIGN_PROMPT", "FOREIGN_FD", "FOREIGN_ACKFIN", "NAK", "KA", "ACKEOF"]
+SRC_MUST_REJECT = {"WRONGSEQ", "WRONGSRC", "WRONGDST", "WRONGDIR", "FOREIGN_MD", "FOREIGN_EOF",
+                   "FOREIGN_PROMPT", "FOREIGN_FD", "FOREIGN_ACKFIN"}
+
+
+def judge_src_call(ctx, o, pre, post, kind):
+    name = rigs.exc_name(o.exc)
+    if o.exc is not None:
+        ctx.prop("only_documented_exceptions", name in hsrc.SRC_DOCUMENTED,
+                 lambda: {"sig": rigs.exc_sig(o.exc), "step": o.step0.name, "event": str(o.call),
+                          "message": str(o.exc)[:120]})
+        if name == "UnretrievedPdusToBeSent":
+            ctx.prop("unretrieved_only_if_queued", o.queue0 > 0,
+                     lambda: {"sig": rigs.exc_sig(o.exc), "step": o.step0.name, "event": str(o.call)})
+        elif name in rigs.ADMISSION_SRC:
+            ctx.covered("admission:" + name)
+            same = (pre[0] == post[0] and pre[1] == post[1] and pre[3] == post[3]
+                    and pre[4] == post[4] and pre[5] == post[5] and len(o.pdus) == 0)
+            ctx.prop("rejected_pdu_changes_nothing", same,
+                     lambda: {"sig": f"{name}@{o.step0.name}", "pre": str(pre), "post": str(post)})
+            ctx.prop("rejected_pdu_keeps_progress", pre[2] == post[2])
+    if kind in SRC_MUST_REJECT:
+        ctx.prop("foreign_pdu_is_rejected", name in rigs.ADMISSION_SRC,
+                 lambda: {"sig": f"{kind} -> {name}"})
+
+
+SRC_PREFIXES = {
+    "md": [], "sm1": ["SM"], "sm2": ["SM", "SM"], "sm3": ["SM", "SM", "SM"],
+    "eof_acked": ["SM", "SM", "SM", "ACKEOF"], "fin_rcvd": ["SM", "SM", "SM", "ACKEOF", "FIN"],
+    "cancelled": ["SM", "CANCEL"], "retx": ["SM", "NAK"], "eof_timeout": ["SM", "SM", "SM", "TICK"],
+}
+
+
+def h_src(ctx, T, mode, prefix):
+    """canonical prefix (drives the handler into each step) followed by T arbitrary events"""
+    w = World(ctx)
+    mode = ACK if mode == "ack" else UNACK
+    sc = hsrc.SrcScenario(ctx, w, mode=mode, closure=bool(ctx.choice("closure", 2)), M=2)
+    o = sc.put()
+    ctx.prop("put_accepted", o.exc is None and o.ret is True, lambda: {"sig": rigs.exc_name(o.exc)})
+    o = sc.sm()  # transaction start, Metadata PDU
+    ctx.prop("first_call_ok", o.exc is None, lambda: {"sig": rigs.exc_sig(o.exc)})
+    sc.remember_conf()
+    pre_events = SRC_PREFIXES[prefix]
+    for i in range(len(pre_events) + T):
+        if i < len(pre_events):
+            alphabet = [pre_events[i]]
+            if mode == UNACK and pre_events[i] in ("NAK", "ACKEOF"):
+                alphabet = ["SM"]
+        else:
+            alphabet = SRC_STATE[mode] + (SRC_LAST if i == len(pre_events) + T - 1 else [])
+        pre = snapshot(sc.rig)
+        o = sc.step(alphabet)
+        post = snapshot(sc.rig)
+        ev = sc.events[-1]
+        judge_src_call(ctx, o, pre, post, ev[0] if ev[0] != "FOREIGN" else "FOREIGN_" + ev[1])
+        ctx.covered("step:" + o.step1.name)
+
+
 def plan(tier):
     n = 4 if tier == "quick" else 5
     specs = []
@@ -66,4 +128,30 @@ def plan(tier):
         for imm in ((True, False) if mode == "ack" else (True,)):
             specs.append(Spec(f"dest/{mode}/imm={imm}/N={n}", "vf.harness.c10:h_dest",
                               {"N": n, "mode": mode, "imm": imm}, twin_share=0.05))
+    t = 2 if tier == "quick" else 3
+    for mode in ("ack", "unack"):
+        for pre in SRC_PREFIXES:
+            if mode == "unack" and pre in ("retx", "eof_timeout", "eof_acked"):
+                continue
+            specs.append(Spec(f"src/{mode}/after-{pre}/T={t}", "vf.harness.c10:h_src",
+                              {"T": t, "mode": mode, "prefix": pre}, twin_share=0.05))
     return specs
+
+
+BOUNDS = {
+    "quick": "destination: every sequence of N=4 events over {Metadata, File Data (offset<=2^20, length<=4000 symbolic), EOF, EOF(cancel, symbolic size), ACK(Finished), tick (dt 0..3), cancel request} plus, in last position, Prompt / Finished / NAK / Keep-Alive / ACK(EOF) / wrong direction / wrong destination id / unknown source id / cancel of another id; acknowledged (immediate and deferred NAK) and unacknowledged, closure on/off. Source: 9 canonical prefixes (one per reachable step) followed by every sequence of T=2 events over {no packet, tick, NAK (1 symbolic request), ACK(EOF), Finished, Keep-Alive, cancel} plus in last position put request / wrong sequence number / wrong ids / wrong direction / Metadata / EOF / Prompt / File Data / ACK(Finished); file of at most 2 segments",
+    "thorough": "destination N=5, source T=3",
+}
+OUTSIDE = "longer sequences; fault-handler codes other than the defaults (C14); TLV options; large-file PDUs; PDUs are always drained between calls, so the positive direction of the unretrieved-PDU guard is not exercised"
+FUNCTIONS = ["DestHandler.state_machine", "DestHandler.cancel_request", "DestHandler._check_inserted_packet", "all private DestHandler step functions reached (see coverage tags)",
+             "SourceHandler.state_machine", "SourceHandler.put_request", "SourceHandler.cancel_request", "SourceHandler._check_inserted_packet", "LostSegmentTracker.*"]
+EXPLANATION = "Open-environment harness: the event sequence itself is a solver-forked variable, PDU numeric fields stay symbolic."
+ASSUMPTIONS = ["PDUs are well-formed spacepackets objects; all emitted PDUs are retrieved between calls",
+               "symbolic clock: time advances only between API calls; one timer interval = 1 unit",
+               "default fault handler table", "in-memory VirtualFilestore that never rejects an operation"]
+MANIFEST = {
+    "technique": "bounded symbolic execution (z3) of both real handlers over all event sequences of bounded length with symbolic PDU fields",
+    "design_ref": "DESIGN.md 7.10",
+    "level_text": "Both real state machines are executed on every event sequence up to the stated length (events solver-forked, offsets/lengths/sizes/clock symbolic); after every API call the oracle requires: no exception outside the library's protocol exceptions, UnretrievedPdusToBeSent only with a non-empty queue at entry, and an admission rejection leaves state, step, progress, queue, transaction id and filestore untouched; PDUs that belong to the other side must be rejected. All feasible paths are explored; counterexamples are replayed on the unshimmed handlers with real bytes, real Countdown and serialisation.",
+    "level_note": "Trusted: z3, symex proxies and world stubs (5% of passing paths and every failing path re-run concretely). Bounds N/T as stated; the source side is explored from canonical prefixes rather than from all histories.",
+}
